@@ -5718,6 +5718,10 @@ class CodegenCtx:
             size_str = self._generate_buflike_length_expr(intexpr.ref)
             if ProgramData.do(ProgramFlag.UNSAFE_STRING_INDEXING):
                 return text
+            if intexpr.ref.holds_a(OutputStorageType.STR):
+                # only what the string currently holds can be read: what a delete left behind is not part of it (and is gone altogether
+                # when deleting frees the buffer)
+                size_str = f"(long)state->{intexpr.ref.name}_counter"
             if ProgramData.do(ProgramFlag.ALLOCATE_STR_SPACE_DYNAMIC_ON_DEMAND) and self._is_dynamic(intexpr.ref):
                 # the buffer does not exist until the first write (or after a freeing delete)
                 return f"((state->c.{intexpr.ref.name} != NULL && ({index}) >= 0 && ({index}) < {size_str}) ? {text} : 0)"
